@@ -18,6 +18,8 @@ func (e *eng) rules() {
 	e.g2()
 	e.g3()
 	e.t2t3()
+	e.forCounts()
+	e.gateRule()
 	e.g5()
 	e.shapes()
 }
@@ -622,4 +624,207 @@ func allLower(s string) bool {
 		}
 	}
 	return s != ""
+}
+
+// forCounts (G7): the compiler's For.byteCode aborts when a loop has different
+// numbers of variables and iterator expressions, and the compiler rules explore
+// loops with equal counts only. That is sound because the parser refuses every
+// other loop: wherever package parser builds a For node (calls mkFor), the call
+// is guarded by a comparison of the lengths of the two lists.
+func (e *eng) forCounts() {
+	mk := e.sp.Func("mkFor")
+	if mk == nil {
+		e.s.Unk("ANCHOR", "parser.mkFor", "-", "not found")
+		return
+	}
+	sites := 0
+	for _, m := range e.sp.Members {
+		fn, ok := m.(*ssa.Function)
+		if !ok || fn.Blocks == nil {
+			continue
+		}
+		var all []*ssa.Function
+		all = append(all, fn)
+		all = append(all, fn.AnonFuncs...)
+		for _, f := range all {
+			for _, b := range f.Blocks {
+				for _, ins := range b.Instrs {
+					refs := false
+					var pos token.Pos
+					switch x := ins.(type) {
+					case *ssa.Call:
+						if x.Call.StaticCallee() == mk {
+							refs, pos = true, x.Pos()
+						}
+						for _, a := range x.Call.Args {
+							if a == ssa.Value(mk) {
+								refs, pos = true, x.Pos() // mkFor handed to a combinator (Fmap): applied unconditionally
+							}
+						}
+					case *ssa.MakeClosure:
+					}
+					if !refs {
+						continue
+					}
+					sites++
+					key := fmt.Sprintf("parser.%s / a for loop is only built from equally long lists", f.Name())
+					if call, isCall := ins.(*ssa.Call); isCall && call.Call.StaticCallee() == mk && guardedByLenCompare(b) {
+						e.s.OK("G7", key, e.p.Pos(pos), "mkFor is reached only when len(variables) == len(expressions)")
+					} else {
+						e.s.Bad("G7", key, e.p.Pos(pos), "a for loop with different numbers of loop variables and iterator expressions must be refused by the parser ('for loop must have the same number of variables and expressions'): the compiler aborts the interpreter on such a node (panic in For.byteCode), and the compiler rules only cover equal counts")
+					}
+				}
+			}
+		}
+	}
+	if sites == 0 {
+		e.s.Unk("G7", "parser / builds for loops", "-", "no use of mkFor found")
+	}
+}
+
+// guardedByLenCompare: block b is entered only through the "equal" outcome of
+// a test comparing two len(...) values.
+func guardedByLenCompare(b *ssa.BasicBlock) bool {
+	isLen := func(v ssa.Value) bool {
+		c, ok := v.(*ssa.Call)
+		if !ok {
+			return false
+		}
+		bi, ok := c.Call.Value.(*ssa.Builtin)
+		return ok && bi.Name() == "len"
+	}
+	for d := b; d != nil; d = d.Idom() {
+		id := d.Idom()
+		if id == nil || len(id.Instrs) == 0 {
+			continue
+		}
+		iff, ok := id.Instrs[len(id.Instrs)-1].(*ssa.If)
+		if !ok {
+			continue
+		}
+		cmp, ok := iff.Cond.(*ssa.BinOp)
+		if !ok || !isLen(cmp.X) || !isLen(cmp.Y) {
+			continue
+		}
+		eqEdge := -1
+		switch cmp.Op {
+		case token.EQL:
+			eqEdge = 0
+		case token.NEQ:
+			eqEdge = 1
+		}
+		if eqEdge >= 0 && id.Succs[eqEdge] == d && len(d.Preds) == 1 && id.Succs[1-eqEdge] != d {
+			return true
+		}
+	}
+	return false
+}
+
+// gateRule (G9): a look-ahead gate commits its Choose / Any to the alternative
+// behind it, so it may only accept input the alternative can start with:
+// FIRST(gate) is contained in FIRST(body). A gate that lets more through makes
+// the combinator commit to a body that then fails, and the alternatives after
+// it are never tried although one of them matches.
+func (e *eng) gateRule() {
+	null := e.nullable()
+	nl := func(g *G) bool {
+		if g.Kind == "ref" {
+			if d, ok := e.defs[g.Str]; ok {
+				return null[d]
+			}
+		}
+		return null[g]
+	}
+	memo := map[string]map[string]bool{}
+	var first func(g *G, seen map[string]bool) map[string]bool
+	first = func(g *G, seen map[string]bool) map[string]bool {
+		out := map[string]bool{}
+		add := func(m map[string]bool) {
+			for k := range m {
+				out[k] = true
+			}
+		}
+		switch g.Kind {
+		case "tok", "kind", "pred":
+			out[g.String()] = true
+		case "ref":
+			if m, ok := memo[g.Str]; ok {
+				return m
+			}
+			if seen[g.Str] {
+				return out
+			}
+			seen[g.Str] = true
+			if d, ok := e.defs[g.Str]; ok {
+				add(first(d, seen))
+			}
+		case "and", "surby":
+			for _, a := range g.Args {
+				add(first(a, seen))
+				if !nl(a) {
+					break
+				}
+			}
+		case "oneof":
+			for _, a := range g.Args {
+				add(first(a, seen))
+			}
+		case "choose", "any":
+			for i := 0; i+1 < len(g.Args); i += 2 {
+				gate, body := g.Args[i], g.Args[i+1]
+				if gate.Kind == "assert" || gate.Kind == "not" || gate.Kind == "ok" {
+					add(first(body, seen))
+				} else {
+					add(first(gate, seen))
+					if nl(gate) {
+						add(first(body, seen))
+					}
+				}
+			}
+		case "sepby":
+			add(first(g.Args[0], seen))
+		case "drop", "fmap", "assert":
+			add(first(g.Args[0], seen))
+		}
+		return out
+	}
+	for n := range e.defs {
+		memo[n] = first(&G{Kind: "ref", Str: n}, map[string]bool{})
+	}
+	n := 0
+	var walk func(def string, g *G)
+	walk = func(def string, g *G) {
+		if g.Kind == "choose" || g.Kind == "any" {
+			for i := 0; i+1 < len(g.Args); i += 2 {
+				gate, body := g.Args[i], g.Args[i+1]
+				if gate.Kind != "assert" {
+					continue
+				}
+				n++
+				fg, fb := first(gate.Args[0], map[string]bool{}), first(body, map[string]bool{})
+				var extra []string
+				for k := range fg {
+					if !fb[k] {
+						extra = append(extra, k)
+					}
+				}
+				sort.Strings(extra)
+				key := fmt.Sprintf("parser.%s / gate %s only lets through what its alternative can start with", def, short(gate.String()))
+				if len(extra) == 0 || nl(body) {
+					e.s.OK("G9", key, e.defPos[def], fmt.Sprintf("FIRST(gate) = %v", load.SortedKeys(fg)))
+				} else {
+					e.s.Bad("G9", key, e.defPos[def], fmt.Sprintf("the gate accepts input starting with %v, which the alternative %s cannot start with (it starts with %v): the combinator commits to the alternative, it fails, and the alternatives after it are never tried", extra, short(body.String()), load.SortedKeys(fb)))
+				}
+			}
+		}
+		for _, a := range g.Args {
+			walk(def, a)
+		}
+	}
+	for _, d := range load.SortedKeys(e.defs) {
+		walk(d, e.defs[d])
+	}
+	if n < 5 {
+		e.s.Unk("G9", "parser / look-ahead gates", "-", fmt.Sprintf("expected at least 5 look-ahead gates, found %d", n))
+	}
 }
